@@ -424,3 +424,63 @@ Fixpoint flatten (fuel : nat) (t : tnode) (at_ : list string) : list (list strin
       | n => [(at_, shallow_of (Some n))]
       end
   end.
+
+(* ---------- links in an observed listing ---------- *)
+Fixpoint loc_prefixb (p q : list string) : bool :=
+  match p, q with
+  | [], _ => true
+  | a :: p', b :: q' => String.eqb a b && loc_prefixb p' q'
+  | _ :: _, [] => false
+  end.
+
+(* the tree a listing describes (parents come before children in a listing) *)
+Definition tree_of_listing (l : list (list string * shallow)) : tnode :=
+  fold_left (fun t ps =>
+               match fst ps, snd ps with
+               | [], _ => t
+               | p, SDir => match tset t p (TDir []) with Some t' => t' | None => t end
+               | p, SFile d => match tset t p (TFile d) with Some t' => t' | None => t end
+               | p, SLink g => match tset t p (TLink g) with Some t' => t' | None => t end
+               | _, SNone => t
+               end) l (TDir []).
+
+(* following the link at [loc] (and whatever it leads to) ends inside [dest], or nowhere *)
+Definition link_resolves_inside (t : tnode) (dest loc : list string) : bool :=
+  match c_walk t loc true with
+  | WAt l _ => loc_prefixb dest l
+  | WNew p c => loc_prefixb dest (p ++ [c])
+  | WErr _ => true
+  | WLink _ _ _ => false
+  end.
+
+(* every link of the listing below [dest] that the tree [before] did not already hold
+   resolves inside [dest] *)
+Definition new_links_inside (before : tnode) (dest : list string) (after : list (list string * shallow)) : bool :=
+  let ta := tree_of_listing after in
+  forallb (fun ps =>
+             match snd ps with
+             | SLink g =>
+                 if loc_prefixb dest (fst ps) && negb (shallow_eqb (shallow_of (tget before (fst ps))) (SLink g))
+                 then link_resolves_inside ta dest (fst ps) else true
+             | _ => true
+             end) after.
+
+(* ---------- a symlink case for Extract with a LEXICAL guard (not Helm's code) ----------
+   What a "support links in plugin archives" change would look like when the target is checked
+   textually: absolute targets refused; filepath.Join(filepath.Dir(path), linkname) has to stay
+   below the target directory (filepath.Rel does not start with ".."); then os.Symlink.
+   Used only by C16_lexical_link_guard_refuted. *)
+Definition lexical_link_entry (t : tnode) (root : list string) (name linkname : string) : xres :=
+  match clean_join_t t root name with
+  | inl err => (t, Some err)
+  | inr p =>
+      if is_abs linkname then (t, Some XName) else
+      let target := clean_comps (abs_path (removelast p) ++ "/" ++ linkname) in
+      if negb (loc_prefixb root target) then (t, Some XName) else
+      match c_walk t p false with
+      | WNew parent c => lift (put t (parent ++ [c]) (TLink linkname))      (* os.Symlink *)
+      | WAt _ _ => (t, Some (XKernel EEXIST))
+      | WErr e => (t, Some (XKernel e))
+      | WLink _ _ _ => (t, Some (XKernel ELOOP))
+      end
+  end.
